@@ -480,6 +480,47 @@ def run_static_memo(prog, rep):
     return rule
 
 
+def _flat(t):
+    out = []
+
+    def w(x):
+        if isinstance(x, tuple):
+            out.append(x)
+            for y in x:
+                w(y)
+    w(t)
+    return out
+
+
+def _co_assigned(f, factor_var, key_vars, units_name):
+    """factor_var and one of key_vars are assigned only inside one and the same if-body, the key from units[...]"""
+    par = {}
+    for n in f.walk():
+        for c in n.c:
+            if c is not None:
+                par[c.id] = n
+
+    def encl_if(n):
+        while n.id in par:
+            n = par[n.id]
+            if n.k == 'if':
+                return n.id
+        return None
+    asg = {}
+    for n in f.walk():
+        if n.k == 'assign' or (n.k == 'call' and n.get('op') == '='):
+            t = unwrap(n.c[0])
+            if t is not None and t.k == 'ref':
+                asg.setdefault(t.decl.get('name'), []).append(n)
+    fa = asg.get(factor_var) or []
+    for kv in key_vars:
+        ka = asg.get(kv) or []
+        if len(fa) == 1 and len(ka) == 1 and encl_if(fa[0]) is not None and encl_if(fa[0]) == encl_if(ka[0]) and units_name in ka[0].c[1].src(40) \
+                and 'getSIScaling' in fa[0].c[1].src(60):
+            return True
+    return False
+
+
 def run_scale_positions(prog, rep):
     """scalePositions: a position is multiplied by getSIScaling(position unit, dimension unit) unless one of the units is absent/'none' or both are the very same string"""
     rule = rep.rule('R-UNIT-SCALEPOS', 'scalePositions multiplies every position by getSIScaling(its unit, dimension unit) unless a unit is missing or "none", or the two strings are equal', floor=1)
@@ -487,6 +528,7 @@ def run_scale_positions(prog, rep):
     it = GenericInterp(prog, watch=lambda n: (n.callee or {}).get('name') in ('getSIScaling',))
     it.loop_once = True
     it.loop_fork = False
+    it.loop_carried = True
     res = it.enumerate(f, this=None, args=[(p['name'],) for p in f.params])
     pn = [p['name'] for p in f.params]     # starts, ends, units, dim_unit, scaled_starts, scaled_ends
     U = ('call', 'std::vector<std::basic_string<char>>::operator[]', (pn[2],), ('iter', 'i'))
@@ -507,16 +549,23 @@ def run_scale_positions(prog, rep):
                 if not (len(fac) == 4 and 'units' in repr(fac[2]) and fac[3] == (pn[3],)):
                     probs.append('getSIScaling is called with %r' % (fac[2:],))
                 continue
-            if fac in (1, 1.0):
+            carried = isinstance(fac, tuple) and fac[:1] == ('carried',)
+            if fac in (1, 1.0) or carried:
                 nplain += 1
                 beyond = [v2 for k, v2 in assign.items() if k[0] == 'cmp' and k[1] == '<' and k[2] == ('iter', 'i') and k[3] == ('call', 'size', (pn[2],))]
                 none_u = [v2 for k, v2 in assign.items() if k[0] == 'cmp' and k[1] == '==' and 'none' in k and pn[2] in repr(k)]
                 none_d = [v2 for k, v2 in assign.items() if k[0] == 'cmp' and k[1] == '==' and 'none' in k and (pn[3],) in k]
                 same = [v2 for k, v2 in assign.items() if k[0] == 'cmp' and k[1] == '==' and (pn[3],) in k and pn[2] in repr(k) and 'none' not in k]
-                if (beyond and beyond[0] is False) or (none_u and none_u[0]) or (none_d and none_d[0]) or (same and same[0]):
-                    continue
+                if (beyond and beyond[0] is False) or (none_u and none_u[0]) or (none_d and none_d[0]) or (same and same[0] and not carried):
+                    continue        # (an entry without a unit of its own takes 1 or the factor of its predecessor)
+                if carried:
+                    # memo idiom: the inherited factor is used because units[i] equals the remembered unit, and the remembered unit
+                    # is only ever set together with the factor, from the same units[i]
+                    memo = [k for k, v2 in assign.items() if k[0] == 'cmp' and k[1] == '==' and v2 and pn[2] in repr(k) and 'carried' in repr(k)]
+                    if memo and _co_assigned(f, fac[1], [x[1] for x in _flat(memo[0]) if isinstance(x, tuple) and x[:1] == ('carried',)], pn[2]):
+                        continue
                 why = [repr(k)[:90] for k, v2 in assign.items() if v2 and (pn[2] in repr(k) or pn[3] in repr(k)) and 'size' not in repr(k)]
-                probs.append('a position with a unit is left unscaled although the dimension has a unit too (decided by %s): units that differ only in case are different units (ms / Ms, mS / ms)' % (why[:2] or 'nothing'))
+                probs.append('a position with a unit is left unscaled (factor %s) although the dimension has a unit too (decided by %s); note that units differing only in case are different units (ms / Ms)' % ('inherited from an earlier entry' if carried else '1', why[:2] or 'nothing'))
                 continue
             probs.append('factor %r is neither 1 nor getSIScaling(unit, dimension unit)' % (fac,))
     if nscaled == 0 or nplain == 0:
